@@ -268,7 +268,7 @@ func c19Apply(root string, t c19Tree, e c19Edit) {
 // ---------- the check ----------
 
 func C19(r *core.Run) map[string]interface{} {
-	r.Rule = "InMemLoader: breadth-first search over reference states (3 canonical paths x {absent,c1,c2}) with Set/Delete in 8 spellings each, plus every history of <=2 (thorough 3) operations, every spelling of every path queried after every operation; OS and http loaders: all 121 trees over {a,b} to depth 2 (absent/file/dir at every node) x every clean absolute path of <=3 segments, plus every edit history of <=3 (thorough 4) operations (create, replace file by directory and back, remove); embed loader: one embedded tree, every clean path; multi loader: all 729 stacks of 3 members (each of 2 paths absent/file/directory per member) x 2 member kinds x 4 ways of assembling the stack; oracle: Exists iff regular file, Exists => Open yields exactly the stored bytes, first member that has the path answers"
+	r.Rule = "InMemLoader: breadth-first search over reference states (3 canonical paths x {absent,c1,c2}) with Set/Delete in 8 spellings each, plus every history of <=2 (thorough 3) operations, every spelling of every path queried after every operation; OS and http loaders: all 121 trees over {a,b} to depth 2 (absent/file/dir at every node) x every clean absolute path of <=3 segments, plus every edit history of <=3 (thorough 4) operations (create, replace file by directory and back, remove); embed loader: one embedded tree, every clean path; multi loader: all 729 stacks of 3 members (each of 2 paths absent/file/directory per member) x 2 member kinds x 4 ways of assembling the stack, plus every history of <=5 (thorough 6) operations over {member Set/Delete, AddLoaders, ClearLoaders, Exists, Open}; oracle: Exists iff regular file, Exists => Open yields exactly the stored bytes, first member that has the path answers"
 	var states, transitions int64
 	tmp, err := os.MkdirTemp("", "c19-")
 	if err != nil {
@@ -504,6 +504,94 @@ func C19(r *core.Run) map[string]interface{} {
 	})
 	states += 729
 	transitions += 729 * 2 * 4 * 2
+
+	// --- multi loader: histories of member edits, AddLoaders/ClearLoaders, and *separate* Exists / Open calls
+	mops := []string{"set0", "del0", "set1", "del1", "clear", "add0", "add1", "exists", "open"}
+	mdepth := 5
+	if r.Thorough() {
+		mdepth = 6
+	}
+	mtotal := int64(0)
+	for d := 1; d <= mdepth; d++ {
+		mtotal += pow(int64(len(mops)), int64(d))
+	}
+	r.ParallelFor(mtotal, func(i int64) {
+		d := 1
+		for ; d <= mdepth; d++ {
+			n := pow(int64(len(mops)), int64(d))
+			if i < n {
+				break
+			}
+			i -= n
+		}
+		mem := []*jet.InMemLoader{jet.NewInMemLoader(), jet.NewInMemLoader()}
+		ml := multi.NewLoader(mem[0], mem[1])
+		stack := []int{0, 1}
+		content := []string{"", ""} // reference: what each member holds under /a ("" = nothing)
+		var hs []string
+		for j := 0; j < d; j++ {
+			op := mops[i%int64(len(mops))]
+			i /= int64(len(mops))
+			hs = append(hs, op)
+			switch op {
+			case "set0", "set1":
+				k := int(op[3] - '0')
+				content[k] = fmt.Sprintf("m%d-v%d", k, j)
+				mem[k].Set("/a", content[k])
+			case "del0", "del1":
+				k := int(op[3] - '0')
+				content[k] = ""
+				mem[k].Delete("/a")
+			case "clear":
+				ml.ClearLoaders()
+				stack = nil
+			case "add0", "add1":
+				k := int(op[3] - '0')
+				ml.AddLoaders(mem[k])
+				stack = append(stack, k)
+			case "exists", "open":
+				want := "absent"
+				for _, k := range stack {
+					if content[k] != "" {
+						want = "file:" + content[k]
+						break
+					}
+				}
+				got := ""
+				if op == "exists" {
+					got = "absent"
+					if ml.Exists("/a") {
+						got = "file:" // only presence is observable
+					}
+					if (got == "absent") != (want == "absent") {
+						viol(&c19Case{Loader: "multi (history)", History: append([]string{}, hs...), Query: "Exists(/a)", Want: want, Got: got})
+						return
+					}
+				} else {
+					rc, err := ml.Open("/a")
+					if err != nil {
+						got = "absent"
+					} else {
+						b, _ := io.ReadAll(rc)
+						rc.Close()
+						got = "file:" + string(b)
+					}
+					// Open without a preceding Exists is outside the Loader contract only for absent paths:
+					// when the reference has the path, Open must yield exactly the first member's content
+					if want != "absent" && got != want {
+						viol(&c19Case{Loader: "multi (history)", History: append([]string{}, hs...), Query: "Open(/a)", Want: want, Got: got})
+						return
+					}
+					if want == "absent" && got != "absent" {
+						viol(&c19Case{Loader: "multi (history)", History: append([]string{}, hs...), Query: "Open(/a)", Want: want, Got: got})
+						return
+					}
+				}
+				r.Eval()
+			}
+		}
+	})
+	transitions += mtotal
 	r.Sample(map[string]interface{}{"loader": "multi", "stack": "member states 1 5 7, NewLoader(m0,m1,m2)", "queries": mpaths})
 	return map[string]interface{}{"states": states, "transitions": transitions, "traces_validated_against_impl": r.Evals(), "inmem_fixpoint": true, "trees": len(trees), "paths": len(paths)}
 }
